@@ -101,6 +101,12 @@ CHECKS["C19"] = dict(
    note="Trusted: harness driver sqlmem (records what database/sql hands over). Homogeneous columns; all-NULL columns are outside the property.",
    design="5/C19")
 
+CHECKS["C18"] = dict(
+   technique="complete enumeration of patterns x cells over a code-point alphabet, x cell orders (the matcher keeps a buffer across cells), against the statement's matching rules",
+   text="Every pattern of up to 3 code points over a 13-code-point alphabet plus % (wildcards at either end, empty, only %, regex metacharacters, invalid regex) with like and ilike, evaluated by the real Filter on a column holding every cell string of up to 3 code points over the same alphabet plus lengths 5-15 around the matcher's 10-byte buffer, as a string column in three cell orders and as enum columns; a 14-cell core in every sequence of 3 through ilike and through the zero-allocation ToUpper itself with four buffer sizes. Reference: literal/prefix/suffix/contains after trimming one %, strings.ToUpper for ilike, Go regexp for patterns with metacharacters, nulls never match.",
+   note="Trusted: strings.ToUpper, regexp. Alphabet chosen for case mappings that change the UTF-8 length, have no simple upper case, or sit at the 0x80 boundary; other code points are not covered.",
+   design="5/C18")
+
 NOT_YET = {}
 BASELINE_CMD = "for m in $(cat /w/out/gomods.txt); do MF=$(cd /repo/$m && . /w/out/goenv.sh && gomodflag); (cd /repo/$m && go test $MF -json -vet=off -count=1 -timeout 25m ./...); done"
 
